@@ -2755,3 +2755,34 @@ mod tests {
         assert!(res.is_ok() || res.is_err());
     }
 }
+
+/// Verification hooks: expose the private scanners so that a model can be compared
+/// with them one to one. Compiled only with `--cfg jomini_verif`.
+#[cfg(jomini_verif)]
+pub mod verif_hooks {
+    /// (scalar length, rest length) of `split_at_scalar`
+    pub fn split_at_scalar(d: &[u8]) -> (usize, usize) {
+        let (s, rest) = super::split_at_scalar(d);
+        (s.as_bytes().len(), rest.len())
+    }
+
+    /// (scalar length, rest length) of `split_at_scalar_fallback`
+    pub fn split_at_scalar_fallback(d: &[u8]) -> (usize, usize) {
+        let (s, rest) = super::split_at_scalar_fallback(d);
+        (s.as_bytes().len(), rest.len())
+    }
+
+    /// (scalar length, rest length) of `parse_quote_scalar`, `None` on error
+    pub fn parse_quote_scalar(d: &[u8]) -> Option<(usize, usize)> {
+        super::parse_quote_scalar(d)
+            .ok()
+            .map(|(s, rest)| (s.as_bytes().len(), rest.len()))
+    }
+
+    /// (scalar length, rest length) of `parse_quote_scalar_fallback`, `None` on error
+    pub fn parse_quote_scalar_fallback(d: &[u8]) -> Option<(usize, usize)> {
+        super::parse_quote_scalar_fallback(d)
+            .ok()
+            .map(|(s, rest)| (s.as_bytes().len(), rest.len()))
+    }
+}
